@@ -14,7 +14,7 @@ import (
 
 func init() {
 	simrt.Register(&simrt.Scenario{
-		Prop: "C08", Name: "long-streams", Count: tiered(1200, 20000),
+		Prop: "C08", Name: "long-streams", Count: tiered(1200, 160000),
 		Run: c08Run, MaxOps: 8 << 20, Horizon: time.Hour,
 		Doc: "two real Machines after an XX or KK handshake; 0..5000 records per direction (up to 10 key rotations), directions interleaved by the tape, sizes incl. 0 and 65535, equal and distinct plaintexts; white-box (key, nonce) freshness, ciphertext distinctness, exact decryption, no plaintext / auth payload on the recorded wire",
 	})
